@@ -1,151 +1,33 @@
 """C01 — flat machine: every event step follows the documented execution order."""
-import hashlib
-import random
-
-from .. import common, flat, runner
-from ..runner import Exploration, Failure
-
-PROP = 'C01'
+from .. import common, flat, flatcheck
 
 
-def knobs(stream):
-    if stream == 'main':
-        # the domain of theorem C01_history: no raising callbacks, no re-entrant calls, unqueued, known events
-        return flat.Knobs(max_models=2, p_unknown_event=0.0, max_history=10)
-    # malformed / neighbouring stream: correspondence only
-    return flat.Knobs(max_models=2, p_unknown_event=0.2, p_bad_dest=0.1, p_raise=0.05, p_on_exception=0.3,
-                      max_history=8)
+def monitor(d, r):
+    ms = []
+    for m in d.models:
+        ms += [m, d.initial]
+    return ('c01', d.enc_cfg() + [len(d.models)] + ms + common.enc_items(r.items))
 
 
-def fingerprint(desc):
-    return hashlib.sha1(repr(desc.enc_case()).encode()).hexdigest()[:16]
+def nontrivial(d, r):
+    rets = [i for i in r.items if i[0] in ('ret', 'raised')]
+    executed = sum(1 for i in rets if i[0] == 'ret' and i[2] == 1)
+    return bool(executed and len(rets) - executed)
 
 
-def judge(desc, model_ans, monitor_ans, run):
-    """returns list of Failure for one case"""
-    out = []
-    case = desc.to_json()
-    if run.bad:
-        out.append(Failure('monitor', 'arguments', case, {'bad': run.bad[:5]}, signature='C01.args'))
-    if monitor_ans is not None and monitor_ans != 'ok':
-        out.append(Failure('monitor', 'documented-order', case,
-                           {'monitor': monitor_ans, 'impl_trace': [common.show_item(i) for i in run.items]},
-                           signature='C01.order'))
-    m = flat.parse_model_answer(model_ans)
-    if m is not None:
-        items, models, st = m
-        if items != run.items or (models, st) != run.final():
-            k = next((i for i, (a, b) in enumerate(zip(items, run.items)) if a != b), min(len(items), len(run.items)))
-            out.append(Failure('correspondence', 'trace_eq', case, {
-                'first_difference_at': k,
-                'model': [common.show_item(i) for i in items[max(0, k - 4):k + 3]],
-                'impl': [common.show_item(i) for i in run.items[max(0, k - 4):k + 3]],
-                'model_final': [models, sorted(st.items())], 'impl_final': [run.final()[0], sorted(run.final()[1].items())]}))
-    return out
-
-
-def run_cases(descs, monitor):
-    """model answers + implementation runs + verified monitor on the implementation traces"""
-    ans = common.batch_driver([('flat', d.enc_case()) for d in descs])
-    runs = [flat.FlatRun(d).run() for d in descs]
-    mon = [None] * len(descs)
-    if monitor:
-        reqs = []
-        for d, r in zip(descs, runs):
-            ms = []
-            for m in d.models:
-                ms += [m, d.initial]
-            reqs.append(('c01', d.enc_cfg() + [len(d.models)] + ms + common.enc_items(r.items)))
-        mon = common.batch_driver(reqs)
-    return ans, runs, mon
-
-
-def chunk(seed, idx, n, stream):
-    rng = random.Random('%s/%s/%d/%d' % (PROP, stream, seed, idx))
-    kn = knobs(stream)
-    descs = [flat.gen_flat(rng, kn) for _ in range(n)]
-    ans, runs, mon = run_cases(descs, stream == 'main')
-    ex = Exploration()
-    st = ex.stats
-    for d, a, r, mo in zip(descs, ans, runs, mon):
-        ex.evaluations += 1
-        if a == 'oof':
-            ex.oof += 1
-        rets = [i for i in r.items if i[0] in ('ret', 'raised')]
-        executed = sum(1 for i in rets if i[0] == 'ret' and i[2] == 1)
-        not_exec = len(rets) - executed
-        blocked = sum(1 for i in r.items if i[0] == 'done' and i[2] == 0 and i[3] == 0)
-        if executed and not_exec:
-            ex.nontrivial.add(fingerprint(d))
-        if stream == 'main':
-            ex.traces_validated += 1
-        o = st.setdefault('outcomes', {})
-        for i in rets:
-            key = 'executed' if (i[0] == 'ret' and i[2] == 1) else ('false' if i[0] == 'ret' else 'raised:' + common.EXC_NAMES[i[2]])
-            o[key] = o.get(key, 0) + 1
-        sl = st.setdefault('slot_calls', {})
-        for i in r.items:
-            if i[0] == 'call':
-                sl[common.SLOTS[i[1]]] = sl.get(common.SLOTS[i[1]], 0) + 1
-        sz = st.setdefault('states', {})
-        sz[str(len(d.states))] = sz.get(str(len(d.states)), 0) + 1
-        st['blocked_conditions'] = st.get('blocked_conditions', 0) + blocked
-        st['send_event_cases'] = st.get('send_event_cases', 0) + int(d.send_event)
-        if len(ex.samples) < 2 and executed and not_exec:
-            ex.samples.append({'history': d.history, 'trace': [common.show_item(i) for i in r.items[:40]]})
-        ex.failures += judge(d, a, mo, r)
-    return ex
-
-
-def fails_like(kind, what):
-    def f(case):
-        d = flat.FlatDesc.from_json(case)
-        ans, runs, mon = run_cases([d], True)
-        fs = judge(d, ans[0], mon[0], runs[0])
-        return any(x.kind == kind and x.what == what for x in fs)
-    return f
-
-
-def shrink_steps(case):
-    import copy
-    # drop history items, script entries, callbacks, transitions
-    for i in range(len(case['history'])):
-        c = copy.deepcopy(case)
-        del c['history'][i]
-        if c['history']:
-            yield c
-    for i in range(len(case['script'])):
-        c = copy.deepcopy(case)
-        del c['script'][i]
-        yield c
-    for ei, (_ev, ts) in enumerate(case['events']):
-        for ti in range(len(ts)):
-            if len(ts) > 1:
-                c = copy.deepcopy(case)
-                del c['events'][ei][1][ti]
-                yield c
-            for key in ('prepare', 'conds', 'before', 'after'):
-                for ci in range(len(ts[ti][key])):
-                    c = copy.deepcopy(case)
-                    del c['events'][ei][1][ti][key][ci]
-                    yield c
-    for key in ('prepare_event', 'before_sc', 'after_sc', 'finalize', 'on_exception', 'on_final'):
-        for ci in range(len(case[key])):
-            c = copy.deepcopy(case)
-            del c[key][ci]
-            yield c
-    for si, s in enumerate(case['states']):
-        for key in ('on_enter', 'on_exit'):
-            for ci in range(len(s[key])):
-                c = copy.deepcopy(case)
-                del c['states'][si][key][ci]
-                yield c
-
-
-class C01(runner.Check):
-    prop = PROP
+class C01(flatcheck.FlatCheck):
+    prop = 'C01'
     level = 'proof'
     theorems = ('TM.C01_step', 'TM.C01_history')
+    streams = (
+        # the domain of theorem C01_history: no raising callbacks, no re-entrant calls, unqueued, known events
+        flatcheck.Stream('main', lambda: flat.Knobs(max_models=2, p_unknown_event=0.0, max_history=10),
+                         monitor=monitor, nontrivial=nontrivial, quick=(16, 400), thorough=(64, 2500)),
+        # malformed / neighbouring stream: correspondence only
+        flatcheck.Stream('malformed', lambda: flat.Knobs(max_models=2, p_unknown_event=0.2, p_bad_dest=0.1,
+                                                         p_raise=0.05, p_on_exception=0.3, max_history=8),
+                         nontrivial=nontrivial, quick=(16, 60), thorough=(32, 600)),
+    )
     rule = ('random flat configurations (1-5 states, 1-3 events, <=3 candidates per source, <=3 conditions/unless, '
             'callbacks in every slot, ignore flags on machine and states, send_event on/off, internal/reflexive '
             'transitions) x histories of 1-10 triggers x scripted condition valuations; a case is non-trivial when '
@@ -159,59 +41,6 @@ class C01(runner.Check):
         return ['theorems assume scripts that neither raise nor re-enter the API (C04/C05 cover those) and '
                 'registered source/destination states',
                 'resolve_callable (name -> attribute) and *args/**kwargs mechanics are exercised, not modelled']
-
-    def budgets(self, tier):
-        return (16, 150, 16, 40) if tier == 'quick' else (64, 900, 32, 300)
-
-    def explore(self, tier, seed):
-        nchunks, per, mchunks, mper = self.budgets(tier)
-        payloads = [(seed, i, per, 'main') for i in range(nchunks)] + [(seed, i, mper, 'malformed') for i in range(mchunks)]
-        ex = Exploration()
-        for part in runner.parallel(chunk, payloads):
-            ex.merge(part)
-        # shrink the first failure of each kind
-        done = set()
-        for f in ex.failures:
-            key = (f.kind, f.what)
-            if key in done:
-                continue
-            done.add(key)
-            f.case = runner.shrink(f.case, fails_like(f.kind, f.what), shrink_steps)
-            d = flat.FlatDesc.from_json(f.case)
-            ans, runs, mon = run_cases([d], True)
-            f.details['shrunk_impl_trace'] = [common.show_item(i) for i in runs[0].items]
-            m = flat.parse_model_answer(ans[0])
-            if m:
-                f.details['shrunk_model_trace'] = [common.show_item(i) for i in m[0]]
-        return ex
-
-    def search(self, tier, seed, failures):
-        """correspondence broke but no monitor failure yet: spend an extra budget of main-stream cases
-        (the only ones the monitor judges) with fresh seeds, looking for a rejected implementation trace."""
-        payloads = [(seed + 7919, i, 300, 'main') for i in range(32)]
-        found = []
-        for part in runner.parallel(chunk, payloads):
-            found += [f for f in part.failures if f.kind == 'monitor']
-        return found
-
-    def replay(self, path):
-        import json
-        with open(path) as fh:
-            payload = json.load(fh)
-        d = flat.FlatDesc.from_json(payload['case'])
-        ans, runs, mon = run_cases([d], True)
-        print('implementation trace:')
-        for i in runs[0].items:
-            print('   ', common.show_item(i))
-        m = flat.parse_model_answer(ans[0])
-        print('model trace:')
-        for i in (m[0] if m else []):
-            print('   ', common.show_item(i))
-        print('monitor C01.checkTrace on implementation trace:', mon[0])
-        fs = judge(d, ans[0], mon[0], runs[0])
-        for f in fs:
-            print('FAIL', f.kind, f.what)
-        return 1 if fs else 0
 
 
 CHECK = C01()
